@@ -287,7 +287,7 @@ class Check:
             out_lines.append('KNOWN-FINDING: property=%s %s' % (self.prop, k['text']))
         nviol = 0
         # at most a few violation lines
-        shown = self.violations[:5]
+        shown = sorted(self.violations, key=lambda v: not v['found_input'])[:5]
         if not proof_ok and not any(v['found_input'] for v in self.violations):
             shown = [dict(signature={'kind': 'proof-break'}, text='proof obligations no longer check',
                           payload=dict(broken='Props/%s.v or its dependencies' % self.prop, gate=proof['gate'], log=proof['log']),
